@@ -322,6 +322,8 @@ class _Typer:
         if isinstance(b, tuple) and b[0] == "TUPLE":
             if isinstance(e.slice, ast.Constant) and isinstance(e.slice.value, int) and -len(b[1]) <= e.slice.value < len(b[1]):
                 return b[1][e.slice.value]
+            if isinstance(e.slice, ast.Slice) and b[1] and len(set(map(repr, b[1]))) == 1:
+                return L(b[1][0])  # a slice of a tuple whose members are all of one kind
             return UNK
         return ID if b == ID else UNK
 
